@@ -23,8 +23,8 @@ func init() {
 
 	addVariants(
 		Variant{ID: "c10-r1-unsigned-wrong-ordinal", Prop: "C10", File: "streamer.go",
-			Old: "\t\tcolumn.Data, l, err = replication.CellBytes(data, pos, tc.tableMap.Types[c], tc.tableMap.Metadata[c],\n\t\t\ttc.table.Columns()[c].IsUnSignedInt())\n\n\t\tif err != nil {",
-			New: "\t\tcolumn.Data, l, err = replication.CellBytes(data, pos, tc.tableMap.Types[c], tc.tableMap.Metadata[c],\n\t\t\ttc.table.Columns()[valueIndex].IsUnSignedInt())\n\n\t\tif err != nil {",
+			Old:    "\t\tcolumn.Data, l, err = replication.CellBytes(data, pos, tc.tableMap.Types[c], tc.tableMap.Metadata[c],\n\t\t\ttc.table.Columns()[c].IsUnSignedInt())\n\n\t\tif err != nil {",
+			New:    "\t\tcolumn.Data, l, err = replication.CellBytes(data, pos, tc.tableMap.Types[c], tc.tableMap.Metadata[c],\n\t\t\ttc.table.Columns()[valueIndex].IsUnSignedInt())\n\n\t\tif err != nil {",
 			Expect: "C10-R1 ordinal@getValuesFromRow"},
 		Variant{ID: "c10-r2-longlong-ignores-unsigned", Prop: "C10", File: "replication/binlog_event_rbr.go",
 			Old: "\t\tif isUnSignedInt {\n\t\t\treturn strconv.AppendUint(nil, uint64(val), 10), 8, nil\n\t\t}\n\t\treturn strconv.AppendInt(nil, int64(val), 10), 8, nil", New: "\t\treturn strconv.AppendInt(nil, int64(val), 10), 8, nil",
@@ -121,11 +121,11 @@ func invokeOnColumn(v ssa.Value, method string, idx ssa.Value) bool {
 }
 
 type valueSpec struct {
-	Type  string
-	Mds   []int64
-	Rule  string
-	Want  map[string]string // condition -> term
-	Why   string
+	Type string
+	Mds  []int64
+	Rule string
+	Want map[string]string // condition -> term
+	Why  string
 }
 
 // other accepted canonical forms of the same decoding, per type
